@@ -4,16 +4,27 @@ Re-run every kept seeded change in /verif/seeded against the CURRENT checks (scr
 VERIF_REPO), record the outcome in each meta.json ("current_checks") and print a markdown table for DESIGN.md 5.2.
 usage: seedreport.py [--run] [ids...]
 """
-import json, os, shutil, subprocess, sys, tempfile, concurrent.futures
+import glob, hashlib, json, os, shutil, subprocess, sys, tempfile, concurrent.futures
 
 SEEDED = "/verif/seeded"
 EXTRA = {"C07-A": ["C08"], "C04-C": ["C08"], "C07-C": ["C08"], "C07-F": ["C08"], "C07-E": ["C08"], "C07-G": ["C08"], "C07-I": ["C04"], "C07-L": ["C08"], "C01-N": ["C05"]}   # changes that live in the Numba kernels are C08's subject as well
 
+def checks_stamp(props):
+    """Hash of the sources that decide these properties (shared monitor modules + the properties' own modules) in the tree the checks run from."""
+    root = os.environ.get("VERIF_SNAPSHOT", "/verif")
+    h = hashlib.sha1()
+    files = sorted(glob.glob(os.path.join(root, "vmon", "*.py"))) + [os.path.join(root, "check")] + [os.path.join(root, "vmon", "props", p.lower() + ".py") for p in props]
+    for f in files:
+        h.update(open(f, "rb").read())
+    return h.hexdigest()[:12]
+
 def run_one(sid):
     d = os.path.join(SEEDED, sid)
     meta = json.load(open(os.path.join(d, "meta.json")))
-    if os.environ.get("VERIF_SNAPSHOT_ID") and meta.get("checked_with") == os.environ["VERIF_SNAPSHOT_ID"] and "error" not in (meta.get("current_checks") or {}):
-        return sid          # already checked with this snapshot of the checks
+    props0 = [meta["breaks_property"]] + EXTRA.get(sid, [])
+    stamp = checks_stamp(props0) + ":" + hashlib.sha1(open(os.path.join(d, "patch.diff"), "rb").read()).hexdigest()[:8]
+    if meta.get("checked_with") == stamp and "error" not in (meta.get("current_checks") or {}):
+        return sid          # already checked with these very check sources and this patch
     tmp = tempfile.mkdtemp(prefix="seedrep_")
     try:
         shutil.copytree("/repo/dataiter", os.path.join(tmp, "dataiter"), ignore=shutil.ignore_patterns("__pycache__"))
@@ -32,7 +43,7 @@ def run_one(sid):
                     keys = [l.split()[1].rstrip(":") for l in r.stdout.splitlines() if l.startswith("violation ")]
                     out.setdefault(p, {})[tier] = {"exit": r.returncode, "keys": keys[:4]}
             meta["current_checks"] = out
-            meta["checked_with"] = os.environ.get("VERIF_SNAPSHOT_ID", "")
+            meta["checked_with"] = stamp
         json.dump(meta, open(os.path.join(d, "meta.json"), "w"), indent=1)
     finally:
         shutil.rmtree(tmp, ignore_errors=True)
